@@ -146,7 +146,7 @@ PROP = {
                 "the last or a middle one is owned by another proxy (routes registered earlier in the same message have to be given back), plain "
                 "and as group members, in shuffled order; `closerace` = 1-6 senders flood the endpoint of a tcp / tcp-group / tcpmux-group / http-group (udp: corpus, until the fix) proxy with user "
                 "traffic while the proxy is closed (CloseProxy / drop), 3-12 rounds; `pstorm` = 4-12 sessions register and close proxies of the "
-                "port-less and routed types (own and contested names / domains / groups) without waiting for the answers. Witnesses of the two known findings live in "
+                "port-less and routed types (own and contested names / domains / groups) without waiting for the answers. Witnesses of the findings (all repaired since) live in "
                 "harness/corpus/crash/. USER side (eng_crash_user.go; the child's frps also has a vhost https port, its real frpc also http / https / "
                 "tcpmux proxies - with and without httpUser - and a udp proxy to route to): `ureq <listener> <bytes>` = one user connection (datagram) "
                 "to the tcpmux CONNECT port / vhost http port / vhost https port / a tcp proxy port / a udp proxy port, FIN, the answer class; "
@@ -298,12 +298,12 @@ META = {
                      "all login chains, and engine ops that demand an answer within 2 s (gated re-logins, gated group leaves, group registrations "
                      "after refusals)",
         "text": "Partial (proof obligations 1-2 as theorems, 3-4 as exploration). Theorems over facts regenerated from the source: every one of "
-                "the 147 accesses to the 24 shared tables is made under the table's own mutex in a sufficient mode, except exactly one "
-                "(nathole HandleVisitor pre-check, known finding); every close( is once/flag/select-guarded, local, or one of 14 pinned "
-                "single-owner sites; every send on a closable channel is recover-wrapped or same-goroutine, except exactly one "
-                "(discoverConn.readLoop, known finding). Model theorems: the work-connection channel capacity is non-negative and <= "
-                "maxPoolCount+10 for every Login.PoolCount >= -10 and NEGATIVE for every PoolCount < -10 (known finding: frps dies), "
-                "non-negative for all inputs in the repaired variant; a frame of any kind changes only the session it arrived on, unknown or "
+                "the 147 accesses to the 24 shared tables is made under the table's own mutex in a sufficient mode (the one exception found, the nathole HandleVisitor "
+                "pre-check, was repaired by d804b75; its switch is on); every close( is once/flag/select-guarded, local, or one of 14 pinned "
+                "single-owner sites; every send on a closable channel is recover-wrapped or same-goroutine (the one exception found, "
+                "discoverConn.readLoop, was repaired by e107126). Model theorems: the work-connection channel capacity is non-negative and <= "
+                "maxPoolCount+10 for every Login.PoolCount >= -10 and was NEGATIVE for every PoolCount < -10 before a1d6aa0 (frps died), "
+                "non-negative for all inputs in the repaired variant, which is the tree now; a frame of any kind changes only the session it arrived on, unknown or "
                 "malformed frames end that session only, unregistered types have no effect (all histories). Work / visitor connections: every use "
                 "of a pointer-typed message field (regenerated: 9 uses of UDPPacket.LocalAddr / RemoteAddr in the two udp forwarders and the sudp "
                 "proxy) is nil-guarded, a nil-safe method, a nil-tolerant callee or a copy, hence no history of frames on control, udp work and "
@@ -356,8 +356,8 @@ META = {
                 "address that does not resolve + proxyProtocolVersion => nil dereference in go-proxyproto, hooks/C16-fix-startworkconn-addr.patch) "
                 "and Crash.udpForwardSendIsFixed (frps / frpc: a user datagram read just before a udp proxy closes => send on closed channel, "
                 "hooks/C16-fix-udp-forward-send.patch). Not followed by the lock-order extractor: calls through interfaces / function values. "
-                "Round 5: one more finding of the unchanged tree, KNOWN until the repair is committed: C16-ssh-exec-payload-wrap (frps: one ssh "
+                "Round 5: one more finding of the unchanged tree, repaired by a012278: C16-ssh-exec-payload-wrap (frps: one ssh "
                 "`exec` request with a length prefix 0xFFFFFFFC..0xFFFFFFFF on the ssh tunnel gateway => slice bounds out of range in a goroutine "
                 "without recover; without authorizedKeysFile no credential is needed), reproduced by the `ssh` ops, switch C16.sshExecArith read "
-                "from the regenerated facts, hooks/C16-fix-ssh-exec-payload-wrap.patch.",
+                "from the regenerated facts, hooks/C16-fix-ssh-exec-payload-wrap.patch; inverse: mutants/C16-revert-fix-a012278.patch.",
     }
